@@ -52,6 +52,11 @@ CHECKS = {
             "Generated histories of add / update / rename / remove (workspace or parent) / copy / re-open over holes that share data names; every hole and data set must read back the model values, the group-wide table must equal the per-hole rows, and after each close every concatenated array must be exactly tiled by its index rows with exactly one attribute record per live hole, data set and property group.",
             "Values are float32-representable; one kind per data name and group (one concatenated array per label); duplicate names in a hole are a documented refusal and not generated.",
             "DESIGN.md 3/C04"),
+    "C12": ("copygrid", "exploration",
+            "exhaustive grid class x target x options + Hypothesis contents/edits; metamorphic oracle (uid-free recursive snapshot equality, source snapshot + raw digests unchanged, edits of the copy must not show in the source)",
+            "Every object class (incl. survey classes), group class, data kind and a drillhole group is copied to the same parent, another parent and a second workspace with every copy_children/clear_cache combination (grid enumerated completely each run), followed by generated edits of the copy and a re-open of both files.",
+            "Equality is judged on the public-getter snapshot (apisnap); shared memory between arrays is reported as a counter, the observable consequence is tested through read-modify-assign edits of the copy.",
+            "DESIGN.md 3/C12"),
 }
 
 NOT_APPLICABLE = {}
@@ -96,6 +101,8 @@ def main():
         "engines": [
             {"name": "tree", "path": "vp/engines/tree.py", "serves_properties": ["C01", "C02", "C05", "C06", "C09", "C12"],
              "kind_free_text": "Hypothesis strategy for operation programs + interpreter with reference model over groups/objects/data/property groups"},
+            {"name": "copygrid", "path": "vp/props/c12.py", "serves_properties": ["C12"],
+             "kind_free_text": "subject builders for every class + copy/edit/re-open oracle"},
             {"name": "concat", "path": "vp/engines/concat.py", "serves_properties": ["C04"],
              "kind_free_text": "drillhole-group histories with a hole/table/data reference model and a raw tiling predicate"},
             {"name": "geomdata", "path": "vp/props/c07.py", "serves_properties": ["C07"],
